@@ -21,7 +21,19 @@ impl Styles {
         ensures r matches Ok(j) ==> !quote_prefixed(*final(self), j)
     { unimplemented!() }
 }
+pub struct Style { pub num_fmt: String, pub rest: WorksheetRest }
+pub uninterp spec fn date_like(fmt: Seq<char>) -> bool;
+pub uninterp spec fn fmt_of(s: Styles, i: i32) -> Seq<char>;
+pub uninterp spec fn with_format(i: i32, fmt: Seq<char>) -> i32;
+pub uninterp spec fn g_num_style() -> i32;
+#[verifier::external_body] pub fn is_likely_date_number_format(format: &str) -> (r: bool) ensures r == date_like(format@) { unimplemented!() }
+impl Styles {
+    #[verifier::external_body] pub fn get_style(&self, i: i32) -> (r: Result<Style, String>) ensures r matches Ok(st) ==> st.num_fmt@ == fmt_of(*self, i) { unimplemented!() }
+    #[verifier::external_body] pub fn get_style_with_format(&mut self, i: i32, fmt: &str) -> (r: Result<i32, String>)
+        ensures r matches Ok(j) ==> j == with_format(i, fmt@) { unimplemented!() }
+}
 impl Worksheet {
+    #[verifier::external_body] pub fn set_cell_with_number(&mut self, row: i32, column: i32, v: f64, style: i32) -> (r: Result<(), String>) requires style == g_num_style() { unimplemented!() }
     #[verifier::external_body] pub fn set_cell_with_boolean(&mut self, row: i32, column: i32, v: bool, style: i32) -> (r: Result<(), String>) requires style == g_style() { unimplemented!() }
     #[verifier::external_body] pub fn set_cell_with_error(&mut self, row: i32, column: i32, e: Error, style: i32) -> (r: Result<(), String>) requires style == g_style() { unimplemented!() }
 }
@@ -41,6 +53,19 @@ impl<'a> Model<'a> {
 //@fragment base/src/model.rs Model::set_user_input `let mut new_style_index = style_index;` ..< `if let Some(formula) = self.formula_without_prefix(&value) {`
 //@end
         Ok(new_style_index)
+    }
+    /// the number branch: the recognised format (percent, currency, grouped, exponent, date) is applied to the cell's style — except that a date typed into
+    /// a cell that already shows dates keeps the cell's own date format (C19: "get a format of that kind"; C18: re-entering a date keeps its format)
+    pub fn entry_number(&mut self, sheet: u32, row: i32, column: i32, v: f64, number_format: Option<String>, new_style_index0: i32) -> (r: Result<(), String>)
+        requires g_num_style() == (match number_format {
+            None => new_style_index0,
+            Some(f) => if date_like(fmt_of(old(self).workbook.styles, new_style_index0)) && date_like(f@) { new_style_index0 } else { with_format(new_style_index0, f@) },
+        })
+    {
+        let mut new_style_index = new_style_index0;
+//@fragment base/src/model.rs Model::set_user_input `if let Some(num_fmt) = number_format {` .. `worksheet.set_cell_with_number(row, column, v, new_style_index)?;`
+//@end
+        Ok(())
     }
     /// the tail of the cascade: boolean, error value, text — every branch stores with new_style_index
     pub fn entry_tail(&mut self, sheet: u32, row: i32, column: i32, value: String, style_index: i32, new_style_index: i32) -> (r: Result<(), String>)
